@@ -90,9 +90,7 @@ pub fn run(out: &mut Out, seed: u64, thorough: bool) {
             let ptypes: Vec<u16> = vec![0x0800];
             for blen in blens {
                 for pt in &ptypes {
-                    if !out.begin("lattice", Obj::new().str("what", "encap")) {
-                        continue;
-                    }
+                    out.begin("lattice", Obj::new().str("what", "encap"));
                     let mut enc = Encapsulator::new(DefaultCrc {});
                     ev_encap(out, &mut enc, &pdu, (li * 37 + 5) as u8, *label, *pt, blen, None, None);
                     ev_preview(out, &pdu, *label, *pt, blen);
@@ -123,9 +121,7 @@ pub fn run(out: &mut Out, seed: u64, thorough: bool) {
                         continue;
                     }
                     let pdu = &sized[si];
-                    if !out.begin("lattice", Obj::new().str("what", "encap_prior")) {
-                        continue;
-                    }
+                    out.begin("lattice", Obj::new().str("what", "encap_prior"));
                     let mut enc = Encapsulator::new(DefaultCrc {});
                     prepare(out, &mut enc, prior, label, &small);
                     ev_encap(out, &mut enc, pdu, 9, label, *pt, *blen, None, None);
@@ -171,9 +167,7 @@ pub fn run(out: &mut Out, seed: u64, thorough: bool) {
                 if blen > 70000 {
                     continue;
                 }
-                if !out.begin("lattice", Obj::new().str("what", "encap_frag")) {
-                    continue;
-                }
+                out.begin("lattice", Obj::new().str("what", "encap_frag"));
                 let ctx = ContextFrag::new((sent % 256) as u8, rng.next() as u32, sent as u16);
                 ev_encap_frag(out, &enc, &pdu, &ctx, blen);
                 ev_frag_preview(out, &pdu, &ctx, blen);
